@@ -74,10 +74,21 @@ theorem colorEnd_facts (s : List Char) (start stop le : Nat) (h2 : BPos (bytesOf
   · have : start ≤ min stop le := by rw [Nat.le_min]; omega
     exact ⟨hce, this, Nat.min_le_right _ _⟩
 
-/-- `build_pretty_string_item` returns for every non-empty region whose ends are character boundaries -/
-theorem buildItem_total (s : List Char) (start stop : Nat) (isRemoval coloring : Bool) (lr : Nat × Nat)
+/-- the geometry `build_pretty_string_item` computes for a non-empty region whose ends are character boundaries:
+    never a panic, and these slices and paddings -/
+def geomOf (b : Bytes) (start stop : Nat) (lineRange : Option (Nat × Nat)) : ItemGeom :=
+  let ls := lineStartOf b start
+  let les := lineStartOf b (stop - 1)
+  let le := lineEndOf b (stop - 1)
+  let ce := colorEndOf b start stop le
+  ⟨(b.take start).drop ls, (b.take ce).drop start, (b.take le).drop ce,
+   countTabs ((b.take start).drop ls), lnoOf lineRange + (start - ls) - countTabs ((b.take start).drop ls),
+   countTabs ((b.take stop).drop les), stop - les - 1 + lnoOf lineRange - countTabs ((b.take stop).drop les)⟩
+
+theorem itemGeom_ok (s : List Char) (start stop : Nat) (lr : Nat × Nat)
     (h1 : BPos (bytesOf s) start) (h2 : BPos (bytesOf s) stop) (hlt : start < stop) :
-    ∃ r, buildItem (bytesOf s) start stop isRemoval coloring (some lr) = .ok r := by
+    itemGeom (bytesOf s) start stop (some lr) = .ok (some (geomOf (bytesOf s) start stop (some lr))) := by
+  have hlno : lnoOf (some lr) = 9 := rfl
   have hlenb : (bytesOf s).length = blen s := length_bytesOf s
   have hne : (bytesOf s).isEmpty = false := by
     cases hb : bytesOf s with
@@ -86,6 +97,8 @@ theorem buildItem_total (s : List Char) (start stop : Nat) (isRemoval coloring :
   obtain ⟨a1, a2⟩ := lineStart_facts s start
   obtain ⟨b1, b2⟩ := lineStart_facts s (stop - 1)
   obtain ⟨c1, c2⟩ := lineEnd_facts s (stop - 1) (by have := h2.2; rw [hlenb] at this; omega)
+  unfold geomOf
+  simp only [hlno]
   generalize hls : lineStartOf (bytesOf s) start = ls at a1 a2
   generalize hles : lineStartOf (bytesOf s) (stop - 1) = les at b1 b2
   generalize hle : lineEndOf (bytesOf s) (stop - 1) = le at c1 c2
@@ -103,8 +116,8 @@ theorem buildItem_total (s : List Char) (start stop : Nat) (isRemoval coloring :
     have := countTabs_le (((bytesOf s).take stop).drop les)
     simp only [List.length_drop, List.length_take] at this
     omega
-  unfold buildItem
-  simp only [bind, Except.bind, pure, Except.pure, subU, hls, hles, hle, hcev]
+  unfold itemGeom
+  simp only [bind, Except.bind, pure, Except.pure, subU, hls, hles, hle, hcev, hlno]
   rw [if_pos (by omega : start ≤ stop)]
   simp only
   rw [if_neg (by simp [hne]; omega)]
@@ -116,7 +129,14 @@ theorem buildItem_total (s : List Char) (start stop : Nat) (isRemoval coloring :
   simp only
   rw [if_pos (by omega : 1 ≤ stop - les)]
   simp only
-  rw [if_pos (by simp only [lineColumnWidth]; omega), if_pos (by simp only [lineColumnWidth]; omega)]
+  rw [if_pos (by omega), if_pos (by omega)]
+
+/-- `build_pretty_string_item` returns for every non-empty region whose ends are character boundaries -/
+theorem buildItem_total (s : List Char) (start stop : Nat) (isRemoval coloring : Bool) (lr : Nat × Nat)
+    (h1 : BPos (bytesOf s) start) (h2 : BPos (bytesOf s) stop) (hlt : start < stop) :
+    ∃ r, buildItem (bytesOf s) start stop isRemoval coloring (some lr) = .ok r := by
+  unfold buildItem
+  rw [itemGeom_ok s start stop lr h1 h2 hlt]
   exact ⟨_, rfl⟩
 
 /-- a region list every listing function can render -/
